@@ -42,6 +42,7 @@ type GhostDecl struct {
 }
 
 type FuncContract struct {
+	DeferredFuncs bool // `deferred`: func-typed arguments are not called before the callee returns (timers, registrations)
 	AutoVolatile bool // synthesized: the function is verified only because it writes a volatile field
 	Key        string
 	Header     string
@@ -200,7 +201,7 @@ func (cs *ContractSet) forFunc(fn *ssa.Function) *FuncContract {
 
 var clauseKW = map[string]bool{"func": true, "type": true, "pure": true, "uf": true, "lemma": true, "ghost": true, "requires": true, "ensures": true,
 	"modifies": true, "decreases": true, "loop": true, "iterates": true, "concurrent": true, "props": true, "terminates": true,
-	"noinline": true, "callbackinv": true, "assert": true, "assume": true, "axiom": true, "assumelocked": true, "ghostentry": true, "callback": true, "arith": true, "nonnil": true, "volatile": true, "guards": true, "invariant": true, "latch": true, "params": true, "results": true, "trusted": true, "purefn": true}
+	"noinline": true, "callbackinv": true, "assert": true, "assume": true, "axiom": true, "assumelocked": true, "ghostentry": true, "callback": true, "arith": true, "nonnil": true, "volatile": true, "deferred": true, "guards": true, "invariant": true, "latch": true, "params": true, "results": true, "trusted": true, "purefn": true}
 
 var tagRe = regexp.MustCompile(`^(\w+)\[([A-Z0-9, ]+)\]`)
 
@@ -427,6 +428,10 @@ func (cs *ContractSet) LoadContractFile(path string, pkgKey string) error {
 		case "terminates":
 			if curF != nil {
 				curF.Terminates = true
+			}
+		case "deferred":
+			if curF != nil {
+				curF.DeferredFuncs = true
 			}
 		case "axiom":
 			e, err := ParseExpr(rest)
